@@ -7,6 +7,7 @@ import (
 	"go/types"
 	"sort"
 	"strings"
+	"time"
 
 	"golang.org/x/tools/go/ssa"
 
@@ -51,6 +52,12 @@ type rep struct {
 	isnil *lin.Lin // kSlice/kPtr: 1 = nil, 0 = non-nil
 	at    *addr    // kPtr: where it points (for memory keys)
 	tuple []rep    // kTuple
+	clos  *closRef // kPtr: a closure created in an analysed frame (lets dynamic calls be expanded)
+}
+
+type closRef struct {
+	f  frameID
+	mc *ssa.MakeClosure
 }
 
 type cmpRef struct {
@@ -201,6 +208,14 @@ func (a *atoms) name(id int) string {
 	return a.info[id].name
 }
 
+func (a *atoms) rangeOf(v int) (int64, int64, bool, bool) {
+	if v < 0 || v >= len(a.info) {
+		return 0, 0, false, false
+	}
+	in := a.info[v]
+	return in.lo, in.hi, in.hasLo, in.hasHi
+}
+
 func (a *atoms) setRange(id int, lo, hi int64, hasLo, hasHi bool) {
 	a.info[id].lo, a.info[id].hi, a.info[id].hasLo, a.info[id].hasHi = lo, hi, hasLo, hasHi
 }
@@ -260,19 +275,29 @@ func (it *interp) entails(d *disjunct, goal lin.Ineq) bool {
 	if d.fkeys[goal.Key()] {
 		return true
 	}
+	// fast path: the goal follows from the type ranges of its atoms alone
+	if ub, ok := goal.L.UpperBound(it.at.rangeOf); ok && ub <= 0 {
+		it.nFast++
+		return true
+	}
 	neg := goal.Neg()
 	seed := neg.L.Vars()
 	if len(seed) == 0 {
 		return lin.Infeasible(it.allFacts(d), 6000)
 	}
-	for _, hops := range []int{1, 2, 4, 1 << 30} {
+	t0 := time.Now()
+	for hi, hops := range []int{1, 2, 4, 1 << 30} {
 		sl, complete := lin.SliceHops(d.facts, seed, hops)
 		all := append(append(make([]lin.Ineq, 0, len(sl)+8), sl...), neg)
 		all = append(all, it.at.rangeFacts(lin.VarsOf(all))...)
 		if lin.Infeasible(all, 4000) {
+			it.tTrue[hi] += time.Since(t0)
+			it.nTrue[hi]++
 			return true
 		}
 		if complete {
+			it.tFalse[hi] += time.Since(t0)
+			it.nFalse[hi]++
 			return false
 		}
 	}
